@@ -302,6 +302,14 @@ S["insert_earlier_Y"] = dict(S["insert_earlier"], max_budget=0,
                              sims=[dict(s, emit_default=0) if s["sid"] == "D" else s
                                    for s in S["insert_earlier"]["sims"]] + [H("Y", next_default=1)],
                              conns=S["insert_earlier"]["conns"] + [C("D", "Y", "eo", "ti")])
+# many steps queued out of order for one simulator (two producers, one running ahead), with a
+# consumer behind it
+S["queue_out_of_order"] = dict(until=6, max_budget=0,
+                               sims=[E("P1", init_event=0, emit_default=0, next=[1, 1, 2]),
+                                     E("P2", init_event=0, emit=[None, 0, 0], next=[3, 2]),
+                                     E("B", emit_default=0), H("Cc", next_default=1)],
+                               conns=[C("P1", "B", "eo", "ti"), C("P2", "B", "eo", "ti2"),
+                                      C("B", "Cc", "eo", "ti")])
 # ---- "+X" variants: an unconnected simulator whose steps finish at arbitrary moments and make
 # mosaik recompute everybody's progress while others are between step() and get_data() ----------
 S["anc_getdata_inflight"] = dict(until=2, sims=[T("A"), E("B", emit_default=0), E("Cc"), T("X")],
